@@ -53,10 +53,32 @@ class Ctx:
         if config not in self.shims:
             self.shims[config] = Shim(config, self.repo)
         return self.shims[config]
+    # verification-type operations whose documentation does not restrict the context: a sample of the calls made by any check is
+    # repeated on a byte copy of secp256k1_context_static and must give the same reply without an illegal-argument report
+    MIRROR_STATIC = frozenset(("ecdsa_verify", "schnorr_verify", "adaptor_verify", "wl_verify", "surj_verify", "rangeproof_verify", "halfagg_verify",
+                               "musig_partial_sig_verify", "s2c_verify_commit", "ae_host_verify", "ecdsa_recover", "pedersen_verify_tally",
+                               "xonly_tweak_add_check", "pubkey_parse", "xonly_parse", "sig_parse_der", "sig_parse_compact", "pubkey_combine", "pubkey_tweak_add", "pubkey_tweak_mul"))
+    def _mirror(self, s, op, args, config, r):
+        key = (config, s.nstarts)
+        if getattr(self, "_static_key", None) != key:
+            try: sc = s.call("ctx_static_copy")
+            except ShimCrash: return
+            self._static_key = key; self._static_slot = int(sc.t[0])
+        try: r2 = s.call(op, *args, ctx=self._static_slot)
+        except ShimCrash as e:
+            self.fail("%s:%s:static_context_mirror:crash:%s" % (self.prop, op, e.kind), e.report[-3000:], cmds=e.history, config=config); return
+        self.count("static_context_mirrored_calls")
+        self.check(r2.t == r.t and r2.ill == 0 and r2.err == 0, "%s:static_context_mirror:%s" % (op, "illegal_callback" if r2.ill else "reply_differs"),
+                   "full context: %s | static copy: %s ill=%d" % (" ".join(r.t)[:200], " ".join(r2.t)[:200], r2.ill), config)
     def call(self, op, *args, config="san", ill=0, c=None):
         """returns Result, or None if the shim died (recorded as a violation). ill: 0 = callbacks forbidden,
         1 = illegal callback allowed, 2 = illegal callback required"""
         s = self.sh(config)
+        if c is None and op in self.MIRROR_STATIC and ill == 0 and self.rng.random() < 0.03:
+            try:
+                r0 = s.call(op, *args, ctx=None)
+                if not r0.ill and not r0.err: self._mirror(s, op, args, config, r0)
+            except ShimCrash: pass
         try:
             r = s.call(op, *args, ctx=c)
         except ShimCrash as e:
